@@ -250,7 +250,9 @@ theorem C06_witness_continue_after_400 :
 
 /-- the statuses with which the model's decision trees refuse, as the extractor names them -/
 def isRefusalStatus (st : String) : Bool :=
-  st == "400" || st == "405" || st == "409" || st == "406" || st == "500" || st == "503" || st == "non-101"
+  st == "400" || st == "405" || st == "409" || st == "406" || st == "500" || st == "503" || st == "non-101" ||
+  st == "403"  -- upgrade step, repair of C05: client certificates required and the client did not ask for StartTLS
+               -- (the C06 configurations never set that requirement; the refusal is C05's `reqcert` model)
 
 /-- **shape of the code the model's `refused` leaves stand for.**
     * every `response.Write(conn)` of `handshake` / `upgrade` that writes an error status is directly followed by the
